@@ -4,6 +4,7 @@
   as its raw 10^18-scaled integer, so no decimal parsing happens here); lists carry their length first.
 -/
 import AllianceModel.Genesis
+import AllianceModel.Query
 namespace Alliance
 namespace Trace
 
@@ -209,6 +210,50 @@ def components (w : World) : List (String × String) :=
         rList (fun (p : ValId × SVal) =>
           s!"{p.1} {p.2.status} {if p.2.jailed then 1 else 0} {p.2.tokens} {p.2.delShares} {match p.2.modShares with | some s => s | none => -1}")
           w.staking.vals) ]
+
+/-! ### query lines:  `Q <kind> <args…> | <sorted rows joined by ';'>` -/
+
+def rRows (rows : List String) : String :=
+  if rows.isEmpty then "-" else ";".intercalate (rows.mergeSort (fun a b => decide (a ≤ b)))
+
+def rUnbondingRows (rows : List UnbondingRow) : String :=
+  rRows (rows.map fun r => s!"{r.1} {r.2.1} {r.2.2.1} {r.2.2.2}")
+
+def rRedelRows (rows : List RedelRow) : String :=
+  rRows (rows.map fun r => s!"{r.1} {r.2.1} {r.2.2.1} {r.2.2.2}")
+
+/-- the model's answer to a query line (the part before " | "), or `none` when the line is not understood -/
+def answerQuery (w : World) (q : List String) : Option String :=
+  match q with
+  | ["unb", del, d, v] =>
+    match del.toNat?, d.toNat?, v.toNat? with
+    | some del, some d, some v => some (rUnbondingRows (qUnbondings w d del v))
+    | _, _, _ => none
+  | ["unbdd", del, d] =>
+    match del.toNat?, d.toNat? with
+    | some del, some d => some (rUnbondingRows (qUnbondingsByDenomAndDelegator w d del))
+    | _, _ => none
+  | ["unbd", del] =>
+    match del.toNat? with
+    | some del => some (rUnbondingRows (qUnbondingsByDelegator w del))
+    | none => none
+  | ["red", del, d] =>
+    match del.toNat?, d.toNat? with
+    | some del, some d => some (rRedelRows (qRedelegations w d del))
+    | _, _ => none
+  | ["redd", del] =>
+    match del.toNat? with
+    | some del => some (rRedelRows (qRedelegationsByDelegator w del))
+    | none => none
+  | ["del", del, v, d] =>
+    match del.toNat?, v.toNat?, d.toNat? with
+    | some del, some v, some d =>
+      some (match qDelegation w del v d with
+        | .ok (s, b) => s!"{s} {b}"
+        | .error (.err c) => "err " ++ c
+        | .error (.panic _) => "panic")
+    | _, _, _ => none
+  | _ => none
 
 def rResult : Except Err Unit → String
   | .ok _ => "ok"
